@@ -44,3 +44,7 @@ Definition pbest_idx (m : nat) (order : list nat) : list nat := firstn m order.
 
 (* mirror image of a list of fitness keys: the (-f, minimise) formulation of (f, maximise) *)
 Definition neg (ks : list Z) : list Z := map Z.opp ks.
+
+(* MWEA's MultiwinnerRepeatedSelection: size // k + 1 elections of k winners each, merged, then topk(size) when there are too many *)
+Definition mwea_elections (size k : nat) : nat := size / k + 1.
+Definition mwea_size (size k : nat) : nat := let total := mwea_elections size k * k in if size <? total then size else total.
